@@ -358,7 +358,7 @@ def ref_sub_seed(seed, index, high=2 ** 31):
 PRIOR_FAMILIES = ['uniform', 'norm', 'expon', 'beta']
 
 
-def gen_prior(tape, name, earlier, positive=(), latent=()):
+def gen_prior(tape, name, earlier, positive=(), latent=(), far=False):
     fam = tape.choice('prior_family', PRIOR_FAMILIES)
     # a latent (non-parameter) node is only ever the location of a normal prior: ModelPrior
     # evaluates the density given ONE latent draw of its own, and a child whose support moved
@@ -379,6 +379,11 @@ def gen_prior(tape, name, earlier, positive=(), latent=()):
         args = [tape.int('b_a', 1, 4) * 0.5 + 0.5, tape.int('b_b', 1, 4) * 0.5 + 0.5]
     if hier:
         args[0] = tape.choice('hier_parent', earlier)
+    elif far and fam != 'beta' and tape.chance('far_from_zero', 1, 8):
+        # a parameter living far from zero relative to its spread (a year, a temperature in
+        # Kelvin, a count in the tens of thousands): legal, and |mean|/sd ~ 1e4 is where
+        # one-pass moment formulas lose their digits while the stated formulas do not
+        args[0] = args[0] + tape.choice('far_offset', [1e4, -1e4, 3e4])
     elif positive and fam in ('uniform', 'norm', 'expon') and tape.chance('hier_scale', 1, 3):
         # the SCALE argument is a parent whose support is positive (e.g. t2 ~ U(a, t1)): outside
         # the parent's support scipy's child density is nan, not -inf
@@ -388,7 +393,7 @@ def gen_prior(tape, name, earlier, positive=(), latent=()):
 
 
 def gen_inference_spec(tape, disc_kinds=('disc', 'dist'), max_priors=3, extra_shapes=False,
-                       ties=True, smooth=None, all_rec=False, latent=False):
+                       ties=True, smooth=None, all_rec=False, latent=False, far=False):
     """Priors -> recording simulator -> summaries -> discrepancy (+ optional extra outputs).
 
     latent=True: sometimes a stochastic non-parameter node (elfi.RandomVariable) sits above a
@@ -405,7 +410,7 @@ def gen_inference_spec(tape, disc_kinds=('disc', 'dist'), max_priors=3, extra_sh
                       'rec': all_rec or tape.chance('recdist', 1, 2)})
         lat = ['z0']
     for i in range(n_pri):
-        p = gen_prior(tape, 't%d' % i, pnames, positive, latent=lat)
+        p = gen_prior(tape, 't%d' % i, pnames, positive, latent=lat, far=far)
         if all_rec:
             p['rec'] = True
         nodes.append(p)
